@@ -20,11 +20,23 @@ import (
 	"gosym/sym"
 )
 
-const (
-	verifDir   = "/verif"
-	harnessDir = "/verif/harness"
-	rootPkg    = "verifharness/props"
+const rootPkg = "verifharness/props"
+
+// verifDir / repoDir: fixed locations for every registered command; $VERIF_DIR and $VERIF_REPO
+// redirect a run to scratch copies (used only by bin/benigntest.sh and during development, so
+// that /repo and /verif/evidence stay untouched while patches are tried).
+var (
+	verifDir   = envOr("VERIF_DIR", "/verif")
+	repoDir    = envOr("VERIF_REPO", "/repo")
+	harnessDir = filepath.Join(verifDir, "harness")
 )
+
+func envOr(k, d string) string {
+	if v := os.Getenv(k); v != "" {
+		return v
+	}
+	return d
+}
 
 type knownFinding struct {
 	Property string `json:"property"`
@@ -350,7 +362,7 @@ func loadOverlay() map[string][]byte {
 		}
 		rel, _ := filepath.Rel(root, path)
 		data, _ := os.ReadFile(path)
-		ov[filepath.Join("/repo", rel)] = data
+		ov[filepath.Join(repoDir, rel)] = data
 		return nil
 	})
 	return ov
@@ -473,7 +485,7 @@ func writeEvidence(id, tier string, seed int, meta propMeta, results []*sym.Resu
 	hashes := map[string]string{}
 	if p != nil {
 		for f, h := range p.FileHash {
-			if strings.HasPrefix(f, "/repo/") {
+			if strings.HasPrefix(f, repoDir+"/") {
 				hashes[f] = h
 			}
 		}
